@@ -7,7 +7,13 @@ from typing import Any, Dict, List, Optional
 from aas_core_codegen.parse import retree
 from aas_core_codegen.parse.retree import _parse as retree_parse
 
-from vf.common import Violation, assume, fail, symbolic, realize, untraced
+from vf.common import Violation, assume, fail, symbolic, realize, untraced, ScanMapping
+
+# stub: the renderer looks characters up in class-level dicts; with a symbolic character a real dict realizes the key
+for _name in ("_ESCAPING_IN_CHARACTER_LITERALS", "_ESCAPING_IN_RANGE"):
+    _d = getattr(retree.Renderer, _name)
+    if isinstance(_d, dict):
+        setattr(retree.Renderer, _name, ScanMapping(_d))
 
 PROPERTY = "C16"
 LEVEL = "model_checking"
@@ -137,34 +143,69 @@ FIRST = {
 }
 
 
+SECOND = dict(FIRST)
+
+
+def _in_class(name: str, c: str) -> Any:
+    if name == "other":
+        for f in FIRST.values():
+            if f(c):
+                return False
+        return True
+    return FIRST[name](c)
+
+
 def make_harness(params: Dict[str, Any]):
     max_len = params["max_len"]
+    min_len = params.get("min_len", 0)
     first = params["first"]
+    second = params.get("second")
     rx_len = params["rx_len"]
 
     def harness(s: str) -> Any:
-        assume(len(s) <= max_len)
+        assume(min_len <= len(s) <= max_len)
         if first == "empty":
             assume(len(s) == 0)
         else:
             assume(len(s) > 0)
-            c = s[0]
-            if first == "other":
-                for f in FIRST.values():
-                    assume(not f(c))
-            else:
-                assume(FIRST[first](c))
+            assume(_in_class(first, s[0]))
+            if second is not None:
+                assume(len(s) > 1)
+                assume(_in_class(second, s[1]))
         return check(s, rx_len)
 
     return harness
 
 
 def shards(tier: str) -> List[Dict[str, Any]]:
-    max_len, budget = (3, 240) if tier == "quick" else (4, 2400)
-    rx_len = 4 if tier == "quick" else 6
-    return [{"name": f"len<={max_len},first={f}", "params": {"max_len": max_len, "first": f, "rx_len": rx_len},
-             "budget_s": budget, "per_path_timeout": 40}
-            for f in ["empty", "other"] + list(FIRST)]
+    classes = ["other"] + list(FIRST)
+    if tier == "quick":
+        core_len, budget, deep_len, deep_budget, rx_len = 2, 200, 3, 100, 4
+    else:
+        core_len, budget, deep_len, deep_budget, rx_len = 3, 3000, 4, 1500, 6
+    out = []
+    if core_len <= 2:
+        for f in ["empty"] + classes:
+            out.append({"name": f"len<={core_len},first={f}",
+                        "params": {"max_len": core_len, "first": f, "rx_len": rx_len},
+                        "budget_s": budget, "per_path_timeout": 40})
+    else:
+        out.append({"name": f"len<={core_len},first=empty", "params": {"max_len": core_len, "first": "empty", "rx_len": rx_len},
+                    "budget_s": budget, "per_path_timeout": 40})
+        for f in classes:
+            out.append({"name": f"len=1,first={f}", "params": {"max_len": 1, "min_len": 1, "first": f, "rx_len": rx_len},
+                        "budget_s": budget, "per_path_timeout": 40})
+            for g in classes:
+                out.append({"name": f"2<=len<={core_len},first={f},second={g}",
+                            "params": {"max_len": core_len, "min_len": 2, "first": f, "second": g, "rx_len": rx_len},
+                            "budget_s": budget, "per_path_timeout": 40})
+    # deeper, budgeted exploration (not part of the exhaustive claim)
+    for f in classes:
+        for g in classes:
+            out.append({"name": f"len={deep_len},first={f},second={g} (exploratory)", "exploratory": True,
+                        "params": {"max_len": deep_len, "min_len": deep_len, "first": f, "second": g, "rx_len": rx_len},
+                        "budget_s": deep_budget, "per_path_timeout": 40})
+    return out
 
 
 def extra_checks(tier: str) -> Dict[str, Any]:
@@ -195,13 +236,13 @@ def describe(tier: str) -> Dict[str, Any]:
     return {
         "functions": ["aas_core_codegen.parse.retree._parse.parse", "aas_core_codegen.parse.retree._parse.render_pointer",
                       "aas_core_codegen.parse.retree._render.render", "aas_core_codegen.parse.retree._parse.Cursor"],
-        "bounds": f"pattern: symbolic str over all of Unicode, len <= {s[0]['params']['max_len']} (one shard per class of "
-                  f"the first character); language comparison (rx, z3 QF_LIA) on strings of length <= {s[0]['params']['rx_len']} "
+        "bounds": f"pattern: symbolic str over all of Unicode, exhaustively claimed for len <= {s[0]['params']['max_len']} (one shard "
+                  f"per class of the first (and second) character) plus budgeted exploratory shards one character longer; language comparison (rx, z3 QF_LIA) on strings of length <= {s[0]['params']['rx_len']} "
                   "over all code points",
         "outside": "longer patterns; FormattedValue pieces (f-string patterns) are exercised in C08; faithfulness is "
                    "decided for ONE realized witness per path class of the parser (and for every corpus pattern), not for "
                    "all members of the class",
-        "stubs": [],
+        "stubs": ["retree.Renderer._ESCAPING_IN_CHARACTER_LITERALS/_ESCAPING_IN_RANGE: dict -> linear equality scan"],
         "assumptions": ["faithfulness is only asserted for patterns that Python's re.compile accepts (the front end "
                         "compiles every pattern with re before parsing it)",
                         "render_pointer is only required for patterns without \\n \\r \\f \\v (its documented precondition)"],
